@@ -217,8 +217,7 @@ def run_dataset(job):
                                 cellsv = [rows[a + i][cname] for i in range(n)]
                                 pm.append({"col": cname, "rg": gi, "pages": dp, "mask": [bool(x) for x in sl],
                                            "kind": "V2" if spec.get("v2") else ("V1nodefi" if spec["cols"].get(cname, {}).get("kind") in ("int", "bool") else "V1defi"),
-                                           "nulls": [c is None for c in cellsv],
-                                           "got_null": None if "raised" in o else None})
+                                           "nulls": [c is None for c in cellsv]})
                     a += n
                 o["page_models"] = pm[:8]
                 # what the real read produced for those chunks (as null flags + original row index)
